@@ -712,7 +712,7 @@ func (c *Ctx) SeqSuffixOf(suf, s *Term) *Term {
 func quoteSym(name string) string {
 	ok := true
 	for _, r := range name {
-		if !(r >= 'a' && r <= 'z' || r >= 'A' && r <= 'Z' || r >= '0' && r <= '9' || strings.ContainsRune("_.#$@!%^&*-+=<>/?~", r)) {
+		if !(r >= 'a' && r <= 'z' || r >= 'A' && r <= 'Z' || r >= '0' && r <= '9' || strings.ContainsRune("_.$@!%^&*-+=<>/?~", r)) {
 			ok = false
 		}
 	}
